@@ -108,7 +108,7 @@ def run_config(pid, hname, cfg, tier, seed, opts):
 
     def body():
         W = world.SymWorld(pkg, small=hopts.get('small'))
-        worlds.append(W)
+        worlds[:] = [W]                    # only the current path's world is needed
         if first[0]:
             sys.setprofile(prof)
         try:
